@@ -11,6 +11,8 @@ def main():
     ap.add_argument("prop", nargs="?")
     ap.add_argument("--tier", default=os.environ.get("VERIF_TIER") or "quick", choices=["quick", "thorough"])
     ap.add_argument("--replay")
+    ap.add_argument("--only", help="regex on obligation labels (debugging; evidence then covers only those)")
+    ap.add_argument("--budget", type=int, help="override per-condition budget in seconds (debugging)")
     a = ap.parse_args()
     if a.replay:
         rec = json.load(open(a.replay))
@@ -22,7 +24,7 @@ def main():
         sys.exit(0)
     if not a.prop:
         ap.error("property id required")
-    sys.exit(runner.run_property(a.prop, a.tier))
+    sys.exit(runner.run_property(a.prop, a.tier, only=a.only, budget=a.budget))
 
 
 if __name__ == "__main__":
